@@ -36,6 +36,7 @@ EXTENDS Naturals, Sequences, FiniteSets, TLC, Json
 
 CONSTANTS Options,   \* <<[key, kind, vk, short, abbrev, destkey, extra]>>  extra: the falsy slots (0, 3, 4) the option accepts
           Formats,   \* subset of {"toml", "cfg", "ini"}: pyproject.toml, setup.cfg, pydoctor.ini
+          ShortKeys, \* the one-letter names of the parser's short flags (v, q, W ...): as KEYS of a file they are unknown
           Vias       \* how the file is found: "default" (by its name, in the working directory) | "config" (--config=PATH)
 
 Absent == [has |-> FALSE, v |-> <<>>]
@@ -74,7 +75,10 @@ FileStyles(o, fmt, file) ==
               [] o.kind = "append" -> {"pylist", "multiline"} \cup (IF Len(file.v) = 1 THEN {"scalar"} ELSE {})
 
 \* an extra key in the file: none | fresh (no such option) | dest (the attribute name, which is not a key)
-Unknowns(o, cli) == {"none"} \cup (IF cli.has THEN {} ELSE {"fresh"} \cup (IF o.destkey THEN {"dest"} ELSE {}))
+\*   | a one-letter key that coincides with a short command-line flag (only --long names are keys; explored with the
+\*     first option only, the option does not matter)
+Unknowns(o, i, cli) == {"none"} \cup (IF cli.has THEN {} ELSE {"fresh"} \cup (IF o.destkey THEN {"dest"} ELSE {})
+                                                            \cup (IF i = 1 THEN ShortKeys ELSE {}))
 
 VARIABLES s
 vars == <<s>>
@@ -85,7 +89,7 @@ Scenario(i, fmt, via, file, fstyle, cli, spell, unk) ==
 Init == \E i \in 1..Len(Options), fmt \in Formats, via \in Vias :
           \E file \in FileChoices(Options[i]), cli \in CliChoices(Options[i]) :
             \E fstyle \in FileStyles(Options[i], fmt, file), spell \in Spellings(Options[i], cli),
-               unk \in Unknowns(Options[i], cli) :
+               unk \in Unknowns(Options[i], i, cli) :
               /\ file.has \/ cli.has \/ unk # "none"
               /\ s = Scenario(i, fmt, via, file, fstyle, cli, spell, unk)
 Next == UNCHANGED vars
